@@ -42,7 +42,7 @@
  "name": "raw_write_blk_bounce_a8",
  "props": ["C17"],
  "level": "U",
- "tier": "wip",
+ "tier": "thorough",
  "harness": "h_raw_write",
  "enforce": ["raw_write_blk"],
  "replace": ["memcpy", "memset"],
@@ -62,7 +62,7 @@
  "name": "raw_write_blk_bounce_a64",
  "props": ["C17"],
  "level": "U",
- "tier": "wip",
+ "tier": "thorough",
  "harness": "h_raw_write",
  "enforce": ["raw_write_blk"],
  "replace": ["memcpy", "memset"],
@@ -82,7 +82,7 @@
  "name": "raw_write_blk_bounce_force",
  "props": ["C17"],
  "level": "U",
- "tier": "wip",
+ "tier": "thorough",
  "harness": "h_raw_write",
  "enforce": ["raw_write_blk"],
  "replace": ["memcpy", "memset"],
@@ -121,7 +121,7 @@
  "name": "raw_read_blk_bounce_a8",
  "props": ["C17"],
  "level": "U",
- "tier": "wip",
+ "tier": "thorough",
  "harness": "h_raw_read",
  "enforce": ["raw_read_blk"],
  "replace": ["memcpy", "memset"],
@@ -141,7 +141,7 @@
  "name": "raw_read_blk_bounce_a64",
  "props": ["C17"],
  "level": "U",
- "tier": "wip",
+ "tier": "thorough",
  "harness": "h_raw_read",
  "enforce": ["raw_read_blk"],
  "replace": ["memcpy", "memset"],
